@@ -370,8 +370,14 @@ def _emit_fn(m, c, assoc, h, trait_ident, self_ident, st):
     body = r6_refpat(body, st)
     for pat, repl in c.body_subst:
         before = st['R1.call_repointed']
-        body = subst_seq(body, pat, T(repl), st, 'R1.call_repointed')
+        # `pat` is one pattern or a list of alternative spellings of the same call
+        alts = pat if (pat and isinstance(pat[0], list) and all(isinstance(x, list) for x in pat) and not any(isinstance(y, str) for y in pat)) else [pat]
+        for alt in alts:
+            body = subst_seq(body, alt, T(repl), st, 'R1.call_repointed')
+            if st['R1.call_repointed'] != before:
+                break
         if st['R1.call_repointed'] == before:
+            pat = alts[0]
             raise LostAnchor('call to re-point not found in %s::%s: %s' % (self_ident, s.name, ' '.join(str(x) for x in pat)))
     generics = list(s.generics)
     where = list(s.where)
